@@ -30,7 +30,7 @@ REQUIRED = {"verdict.matches_model": {"quick": 1500, "thorough": 100000}, "verdi
             "fault.hook_makes_run_fail": {"quick": 300, "thorough": 20000}, "fault.cleanup_makes_run_fail": {"quick": 100, "thorough": 5000},
             "exit_code.matches_model": {"quick": 12, "thorough": 300},
             "verdict.failing_sub_step_of_execute_steps_makes_run_fail": {"quick": 200, "thorough": 10000}}
-REQUIRED_SEEN = {"only_cause": ["failed_scenario", "aborted", "aborted_without_failed_scenario", "hook_failure", "cleanup_failure",
+REQUIRED_SEEN = {"features_named_by_list_file": ["wildcard_line", "explicit_names"], "only_cause": ["failed_scenario", "aborted", "aborted_without_failed_scenario", "hook_failure", "cleanup_failure",
                                 "undefined_dry_run"],
                  "verdict": ["failed", "success"], "file_filter": ["include+exclude:file_matching_both"],
                  "nested_sub_step_outcome": ["fail", "error", "pending", "undefined", "pass"], "tag_name_class": ["contains_operator_word", "rendered_from_special_placeholder"],
@@ -430,10 +430,20 @@ def run(spec, mon):
             if loc_plan is not None:
                 lm = proj.line_maps[loc_plan["file"]]
                 extra_args = ["features/%s:%d" % (loc_plan["file"], lm[k]) for k in loc_plan["keys"]]
+            listfile = None
+            if loc_plan is None and file_filter is None and i % 2 == 1:
+                # the features are named by a list file that lives next to them (behave @features/all.txt): explicit names or a
+                # wildcard line, both relative to the list file's own directory
+                listfile = ("wildcard_line", "explicit_names")[(shard + i // 2) % 2]
+                with open(os.path.join(proj.root, "features", "all.txt"), "w") as fh:
+                    fh.write("# all features\n" + ("*.feature\n" if listfile == "wildcard_line" else
+                                                  "".join("%s\n" % f["file"] for f in case["program"]["features"])))
+                extra_args = ["@features/all.txt"]
+                mon.seen("features_named_by_list_file", listfile)
             res = proj.run(case["args"] + extra_args + ["-f", "plain"])
         finally:
             proj.close()
-        c2 = dict(case, hook_fault=plan.get("hook_fault"), file_filter=file_filter)
+        c2 = dict(case, hook_fault=plan.get("hook_fault"), file_filter=file_filter, features_named_by_list_file=listfile)
         if loc_plan is not None:
             c2["locations"] = {"file": loc_plan["file"], "scenarios": loc_plan["names"], "arguments": extra_args}
         mon.case(("sub", RB.strip_case(c2)), nontrivial(case, pred, bool(plan)))
